@@ -186,6 +186,7 @@ class Points:
                 raise IndexError("Boolean slicing in last dimension is not supported.")
 
         out_space = self.space
+        columns = None
         if isinstance(val, list):
             # check if Ellipsis(...) is inside the slicing input.
             # Here we have to be carefull if specific indices are passed in, as an
@@ -210,22 +211,27 @@ class Points:
                     out_idxs = []
                     for var in out_space:
                         out_idxs += rng[slc[var]]
-                    val[-1] = out_idxs
+                    # the columns are picked in a separate step: as a second index
+                    # list they would be paired element-wise with a list/mask/tensor
+                    # index of the rows instead of being applied to every chosen row
+                    columns = out_idxs
+                    val[-1] = slice(None)
 
         if is_tuple:
             # hand a tuple index back to torch as a tuple: a list that contains only
             # integers would be read as ONE index list for the first axis, so that
             # points[0, 1] on two batch axes selected the rows 0 and 1 of the first axis
             val = tuple(val)
-        return val, out_space
+        return val, out_space, columns
 
     def __getitem__(self, val):
         """
         Supports usual slice operations like points[1:3,('x','t')]. Returns a new,
         sliced, points object.
         """
-        val, space = self._compute_slice(val)
-        out = self._t[val]
+        val, space, columns = self._compute_slice(val)
+        data = self._t if columns is None else self._t[..., columns]
+        out = data[val]
         if len(out.shape) == 1:
             out = out.unsqueeze(dim=0)
         return Points(out, space)
@@ -235,9 +241,14 @@ class Points:
         Supports assignment of new point to the points tensor. Points are replaced
         using the same slicing rules as in `__setitem__`.
         """
-        val, space = self._compute_slice(key)
+        val, space, columns = self._compute_slice(key)
         assert space == points.space
-        self._t[val] = points._t
+        if columns is None:
+            self._t[val] = points._t
+        else:
+            selected = self._t[..., columns]
+            selected[val] = points._t
+            self._t[..., columns] = selected
 
     def __iter__(self):
         """
